@@ -326,6 +326,41 @@ def _f_body(k):
     return _doc_fixed_point(D.text(), ['**kern', '**text'])
 
 
+# ------------------------------------------------------------------ C01.g thousands of different spellings in one spine
+def _spellings():
+    durs = ('1', '2', '4', '8', '16', '32', '64')
+    pit = [l * k for l in 'cdefgab' for k in (1, 2)] + [l.upper() * k for l in 'cdefgab' for k in (1, 2)]
+    return [d + dd + p + a + sg for d in durs for dd in ('', '.') for p in pit for a in ('', '#', '-') for sg in ('', 'L', 'J', "'")]
+
+
+HEAD_NOTES = ("4c^'", '8.dd#L;', "2GG-('", "16ee'J^")            # written once at the top ...
+TAIL_NOTES = ("4c'^", '8.dd#;L', "2GG-'(", "16ee^J'")            # ... and again, with the signifiers in another order, after thousands of other spellings
+
+
+def ob_g(k: int) -> bool:
+    assume(0 <= k < 3)
+    return _g_body(choose(k, 3))
+
+
+@native
+def _g_body(k):
+    """One **kern spine holding 300 / 1500 / 4400 (thorough: all 4704) pairwise different note spellings between two copies of four
+    decorated notes written with their signifiers in different orders: the document is a fixed point (also through ekern) and the
+    two copies have the same normal form -- however many other spellings the importer has seen in between."""
+    sp = _spellings()
+    n = (300, 1500, 4400 if not ctx.thorough() else len(sp))[k]
+    body = sp[:n]
+    text = '**kern\n*clefG2\n' + '\n'.join(HEAD_NOTES) + '\n' + '\n'.join(body) + '\n' + '\n'.join(TAIL_NOTES) + '\n*-\n'
+    doc, errs = kp.loads(text)
+    check(not errs, lambda: f'{n} spellings: import errors {[str(e) for e in errs][:3]}')
+    for enc in (kp.Encoding.normalizedKern, kp.Encoding.eKern):
+        ls = kp.dumps(doc, encoding=enc).split('\n')
+        check(len(ls) == n + 12, lambda: f'{n} spellings: the {enc.name} export has {len(ls) - 1} lines, the text {n + 11}')
+        head, tail = ls[2:6], ls[-6:-2]
+        check(head == tail, lambda: f'after {n} other spellings the re-ordered copies {TAIL_NOTES} are exported as {tail}, the first copies {HEAD_NOTES} as {head} ({enc.name})')
+    return _doc_fixed_point(text, ['**kern'])
+
+
 def _desc_a(grid, k):
     return {'cell': _cell(grid, k).source()}
 
@@ -359,6 +394,10 @@ OBLIGATIONS = [
        witnesses=[{'k': 0}], min_confirmed=2, enumerated='score length',
        bounds={'quick': 'kern + text scores of 300 and 1200 data rows (392 / 1555 lines) with barlines, rests, dotted and decorated notes, field and global comments, one split + join',
                'thorough': '+ 4000 data rows (about 5200 lines)'}),
+    Ob(id='C01.g', fn=ob_g, title='thousands of pairwise different spellings in one spine between two differently ordered copies of the same notes: fixed point and one normal form',
+       shard_of=lambda k: k, shards={'quick': 3, 'thorough': 3}, budget_s={'quick': 170, 'thorough': 900}, native_body=True,
+       witnesses=[{'k': 0}], min_confirmed=3, enumerated='number of different spellings in between (3)',
+       bounds={'quick': '300 / 1500 / 4400 different note spellings (7 durations x dot x 28 pitches x 3 accidentals x 4 signifiers)', 'thorough': '300 / 1500 / 4704'}),
     Ob(id='C01.e', fn=ob_e, title='document fixed point over spine-operator layouts (1-4 spines, split and join)',
        shard_of=lambda layout: layout, shards={'quick': 8, 'thorough': 16}, budget_s={'quick': 120, 'thorough': 1800},
        witnesses=[{'layout': 0}], min_confirmed=100, enumerated='layout selector',
